@@ -607,7 +607,6 @@ func init() {
 			r := c.Run
 			r.Rule = "auto-submit pages are produced through every real path (login callback Success and error replies with RelayState and consumer URL from stored requests: arbitrary bytes incl. NUL, invalid UTF-8, up to 64 KiB; SSO error replies with RelayState from query / form and consumer URL from SP metadata; logout replies) and tokenised by the harness's own byte-level HTML tokenizer. The skeleton (token sequence, tag and attribute names, static values and text) must equal the skeleton of a rendering with neutral sentinels; the three dynamic values must be the substituted RelayState (NUL / invalid UTF-8 may become U+FFFD, CR/CRLF -> LF), a pure base64 message that decodes, and the consumer URL under the 'only-encodes' relation - or the inert placeholder, only for URLs with a non-http(s)/mailto 'scheme'; the emitted action's scheme as a browser reads it must be http, https, mailto or none. Every string constant of the library's own source (a fuzzing dictionary: placeholders, sentinels) is substituted as RelayState and inside the consumer URL. A further workload renders a page right after an earlier reply of the same provider failed to be written (broken connection after N bytes). Distinct = (path, consumer URL, RelayState length)."
 			r.Require("pages_checked", int64(c.Pick(2000, 25000)))
-			r.Require("actions_replaced_by_placeholder", 100)
 			r.Require("actions_url", 500)
 			r.Require("pages_after_failed_write", 300)
 			r.Require("dictionary_pages", 300)
